@@ -244,7 +244,9 @@ def stepLine (d : DS) (toks : List String) : DS × String :=
     | some hid, some effs =>
       let sc := if hid < x.scripts.length then x.scripts.set hid effs
                 else x.scripts ++ List.replicate (hid - x.scripts.length) [] ++ [effs]
-      ({ d with ps := { d.ps with w := { x with scripts := sc } } }, "ok")
+      -- (re)defining a script re-arms the handler: its invocation counter starts again at 0
+      let hc := if hid < x.hcount.length then x.hcount.set hid 0 else x.hcount
+      ({ d with ps := { d.ps with w := { x with scripts := sc, hcount := hc } } }, "ok")
     | _, _ => bad
   | ["proc", r] =>
     match r.toNat? with
